@@ -189,6 +189,24 @@ func init() {
 			},
 		})
 	}
+	for _, o := range []OptSet{OptNone, OptSetO, OptMset, OptKeys1, OptSetMerge, OptMsMerge, OptMerge} {
+		o := o
+		nb := len(bulky)
+		p.Strata = append(p.Strata, mon.Stratum{
+			Name:       "exh-bulky/" + o.Name,
+			N:          n(nb * nb * 3),
+			Exhaustive: always,
+			Run: func(c *mon.Ctx, i int) {
+				// long strings differing only in the middle; bags whose counts differ by multiples of 256
+				how := i % 3
+				x, y := bulky[(i/3)/nb], bulky[(i/3)%nb]
+				a, _ := wrapText(x, how)
+				b, _ := wrapText(y, how)
+				c.Feature("bulky_pairs")
+				c05Judge(c, a, b, o, "bulky")
+			},
+		})
+	}
 	for _, o := range []OptSet{OptNone, OptSetO, OptMset, OptKeys1, OptSetMerge, OptMsMerge} {
 		o := o
 		nAtoms := len(confusable)
@@ -215,7 +233,10 @@ func init() {
 		Run: func(c *mon.Ctx, i int) {
 			eps := []float64{0.1, 0.5, 1e-9}[i%3]
 			x := gen.Pick(c.R, []float64{0, 1, 2.5, -3, 100})
-			delta := gen.Pick(c.R, []float64{0, eps / 2, eps * 0.999, eps * 1.5, eps * 2, -eps / 2, -eps * 1.5})
+			delta := gen.Pick(c.R, []float64{0, eps / 2, eps * 0.999, eps * 1.5, eps * 2, -eps / 2, -eps * 1.5, eps, -eps})
+			if delta == eps || delta == -eps {
+				c.Feature("precision_exactly_at_the_tolerance")
+			}
 			y := x + delta
 			if (i/12)%3 == 2 {
 				x, y = -eps*gen.Pick(c.R, []float64{0.9, 0.6, 0.45}), eps*gen.Pick(c.R, []float64{0.9, 0.6, 0.45}) // straddling zero
